@@ -48,16 +48,50 @@ GLOB_BASE = 0x100000
 FUNC_BASE = 0x400000
 
 class Mem:
-    """byte-granular concrete-address memory holding symbolic bytes: addr -> (val, width_bits, byte_index)"""
-    def __init__(s, parent=None):
+    """byte-granular concrete-address memory holding symbolic bytes: addr -> (val, width_bits, byte_index).
+    Copy-on-write chain: fork() freezes this layer and returns two fresh children (O(1)); `root` layers (the init image)
+    are shared by everybody and never count as path-local."""
+    TOMB = ('tomb',)
+    def __init__(s, parent=None, root=False):
         s.d = {}
         s.parent = parent
-    def fork(s):
-        m = Mem(s.parent); m.d = dict(s.d); return m
+        s.root = root
+        s.depth = 0 if parent is None or parent.root else parent.depth + 1
+    def split(s):
+        """-> (a, b): two independent continuations of this memory"""
+        base = s
+        if s.depth > 24: base = s.flatten()
+        return Mem(base), Mem(base)
+    def flatten(s):
+        chain = []; x = s
+        while x is not None and not x.root: chain.append(x); x = x.parent
+        m = Mem(x)
+        for layer in reversed(chain): m.d.update(layer.d)
+        return m
     def get(s, a):
-        if a in s.d: return s.d[a]
-        if s.parent is not None: return s.parent.get(a)
+        x = s
+        while x is not None:
+            c = x.d.get(a)
+            if c is not None: return None if c is Mem.TOMB else c
+            x = x.parent
         return None
+    def has_local(s, a):
+        x = s
+        while x is not None and not x.root:
+            c = x.d.get(a)
+            if c is not None: return c is not Mem.TOMB
+            x = x.parent
+        return False
+    def drop_local(s, a):
+        s.d[a] = Mem.TOMB
+    def ancestors(s):
+        out = []; x = s
+        while x is not None and not x.root: out.append(x); x = x.parent
+        return out
+    def keys_since(s, stop):
+        keys = set(); x = s
+        while x is not None and not x.root and x is not stop: keys |= x.d.keys(); x = x.parent
+        return keys
     def store(s, addr, size, val):
         if is_c(val): val &= mask(8 * size)
         for i in range(size): s.d[addr + i] = (val, 8 * size, i)
@@ -109,13 +143,13 @@ class Path:
         p = Path(); p.frames = [f.fork() for f in s.frames]; p.pc = list(s.pc); p.last = s.last; p.nsym = s.nsym
         if hasattr(s, 'tls'): p.tls = dict(s.tls)
         if hasattr(s, 'alloc_cnt'): p.alloc_cnt = dict(s.alloc_cnt)
-        p.mem = s.mem.fork(); p.sp = s.sp; p.errno_addr = s.errno_addr
+        s.mem, p.mem = s.mem.split(); p.sp = s.sp; p.errno_addr = s.errno_addr
         return p
 
 class Engine:
     def __init__(s, mod, model='sc', loop_bound=3, verbose=False):
         s.mod, s.model, s.loop_bound, s.verbose = mod, model, loop_bound, verbose
-        s.init_mem = Mem()
+        s.init_mem = Mem(root=True)
         s.heap = HEAP_BASE
         s.gaddr = {}; s.faddr = {}; s.addr2f = {}
         s.events = []; s.asserts = []; s.assumes = []; s.exceeded = []; s.stuck = []; s.futex_waits = []
@@ -125,7 +159,9 @@ class Engine:
         s.local_solver = z3.Solver(); s.local_solver.set('timeout', 2000)
         s.stats = dict(paths=0, forks=0, instrs=0)
         s.loop_bounds = {}; s.fn_seen = set(); s.opts = {}; s.is_final = False
+        s.phase = 'layout'; s.tid = -1
         s.layout_globals()
+        s.phase = 'init'
 
     # ------------------------------------------------------------------ globals
     def layout_globals(s):
@@ -166,7 +202,10 @@ class Engine:
 
     def const_val(s, c, ty):
         if isinstance(c, GlobalRef):
-            if c.name in s.gaddr: return s.gaddr[c.name]
+            if c.name in s.gaddr:
+                g = s.mod.globals[c.name]
+                if g.tls and getattr(s, 'phase', 'layout') != 'layout': return s.tls_addr(None, g)
+                return s.gaddr[c.name]
             if c.name in s.faddr: return s.faddr[c.name]
             raise Unsupported('global %s' % c.name)
         if c.kind == 'int': return c.val & mask(width_of(ty)) if ty is not None else c.val
@@ -335,7 +374,7 @@ class Engine:
     def tls_addr(s, p, g):
         tl = s.__dict__.setdefault('tls_map', {}).setdefault(s.tid, {})
         if g.name not in tl:
-            a = s.malloc(max(size_of(g.ty), 1), max(g.align or 1, 16))
+            a = s.malloc(max(size_of(g.ty), 1), max(g.align or 1, 16), site_pool=(s.phase != 'init'))
             tl[g.name] = a
             if g.init is not None: s.store_const(s.init_mem, a, g.ty, g.init)
             else:
@@ -504,8 +543,11 @@ class Engine:
         if cnt: m.alloc_cnt = cnt
 
     def merge_mem(s, m, group, conds):
+        anc0 = group[0].mem.ancestors(); common = None
+        for x in anc0:
+            if all(any(y is x for y in p.mem.ancestors()) for p in group[1:]): common = x; break
         keys = set()
-        for p in group: keys |= set(p.mem.d.keys())
+        for p in group: keys |= p.mem.keys_since(common)
         def same(c, d):
             if c is d: return True
             if c is None or d is None: return False
@@ -522,8 +564,8 @@ class Engine:
         done = set()
         for a in sorted(keys):
             if a in done: continue
-            if s.is_final and a < STACK_BASE and any(a not in p.mem.d for p in group):
-                m.mem.d.pop(a, None); continue      # epilogue read cache: valid only if every merged path has read it
+            if s.is_final and a < STACK_BASE and any(not p.mem.has_local(a) for p in group):
+                m.mem.drop_local(a); continue      # epilogue read cache: valid only if every merged path has read it
             cells = [p.mem.get(a) for p in group]
             c0 = cells[0]
             if all(same(c, c0) for c in cells): continue
@@ -689,7 +731,7 @@ class Engine:
         if is_c(addr) and not rmw and not s.wild and s.phase == 'threads':
             if s.is_final:
                 # the epilogue runs alone after every thread: a location it has already read (or written) cannot change
-                if all((addr + i) in p.mem.d for i in range(size)): return p.mem.load(addr, size), None
+                if all(p.mem.has_local(addr + i) for i in range(size)): return p.mem.load(addr, size), None
             elif all(s.wtids.get(addr + i, set()) <= {s.tid} for i in range(size)):
                 # only this thread ever writes these bytes: the load returns its own po-latest store (coherence)
                 return p.mem.load(addr, size, undef=s.init_byte), None
@@ -812,6 +854,13 @@ class Engine:
                     for w in ws:
                         if is_c(w): continue
                         if any(not v.startswith('r_') for v in s.vars_of(w)): return None
+        if s.phase == 'threads':
+            # values the possible writers (previous exploration round) can store, enumerated through their value terms;
+            # includes init value and everything learnt by pre-runs / CEGAR widening
+            try: vs = s.valset(e, 0, 512)
+            except Unsupported: vs = None
+            if vs is None or any(not is_c(v) for v in vs) or len(vs) > 256: return None
+            return set(vs)
         try:
             addrs = [e.addr] if is_c(e.addr) else s.enum_values(e.addr, e.guard, record=False)
         except Unsupported:
@@ -1359,6 +1408,7 @@ class Engine:
                 p.sp = (p.sp + 15) // 16 * 16; p.errno_addr = p.sp; p.sp += 16; p.mem.store(p.errno_addr, 4, 0)
             return p.errno_addr
         if n in ('vf_yield', 'vf_usleep', 'sched_yield', 'usleep'): return 0
+        if n == 'sysconf': return 4096
         if n == 'vf_assert':
             c = simp(a[0])
             if is_c(c):
